@@ -225,6 +225,15 @@ func (cm *c11Commit) dangling(b int) (bool, string) {
 func c11Scenarios() []c11Scenario {
 	return []c11Scenario{
 		{"post-prelude(heights 13-16, journal pruning active)", func() *fix.World { return fix.BaseWorld(fix.Options{}) }, c11Blocks},
+		// same heights on a node that has been running since genesis without a restart:
+		// its in-memory journal window is the one it computed itself, not one read back
+		// from the store at open time
+		{"never-restarted(heights 13-14, journal pruning active)", func() *fix.World { w := fix.NewWorld(fix.Options{}); w.Prelude(); return w }, func(w *fix.World) [][]pb.Transaction {
+			return [][]pb.Transaction{
+				{w.TransferTx(fix.KUser, fix.KUser2, "5")},
+				{},
+			}
+		}},
 		{"young-chain(heights 2-4, no pruning)", func() *fix.World { return fix.NewWorld(fix.Options{}) }, func(w *fix.World) [][]pb.Transaction {
 			a0 := fix.AdminKeys[0]
 			return [][]pb.Transaction{
@@ -483,7 +492,7 @@ func C11(c *mc.Ctx) {
 	}
 	fix.Cleanup()
 	c.Set("distinct_nontrivial", len(distinct))
-	c.Set("rule", "for each block commit of 3 scenarios (post-prelude chain with journal pruning: transfer + WASM contract deployment (new account with code), IBTP request + transfer, empty block, IBTP receipt; young chain heights 2-4; genesis block 1) every product of prefixes of the recorded durable writes (state-store batches x chain-index batch x ordered blockfile appends) is materialised on a copy of the pre-commit data and reopened through ledger.New; distinct = distinct (scenario,height,prefix triple)")
+	c.Set("rule", "for each block commit of 4 scenarios (post-prelude chain with journal pruning, reopened before the crashing block and never restarted since genesis: transfer + WASM contract deployment (new account with code), IBTP request + transfer, empty block, IBTP receipt; young chain heights 2-4; genesis block 1) every product of prefixes of the recorded durable writes (state-store batches x chain-index batch x ordered blockfile appends) is materialised on a copy of the pre-commit data and reopened through ledger.New; distinct = distinct (scenario,height,prefix triple)")
 	c.Assume("process death, not power loss: each durable write (leveldb batch, one file append) is all-or-nothing and each writer's writes reach the OS in program order")
 	c.Assume("memkv stands in for goleveldb; the blockfile is the real one")
 	c.Set("exhaustive", true)
